@@ -329,14 +329,14 @@ def check_sessions(ck, scenarios):
                 if m is None or not multi:
                     return m
                 for k in range(len(ex_names)):
-                    if ('x%dx' % k) in text:
-                        return '%s|x%dx' % (m, k)
+                    if ('Q%dQ' % k) in text:
+                        return '%s|Q%dQ' % (m, k)
                 return None
             by_marker = {}
             for run in runs:
                 k = 'm%dm' % names.index(run.benchmark.name)
                 if multi:
-                    k += '|x%dx' % ex_names.index(run.benchmark.suite.executor.name)
+                    k += '|Q%dQ' % ex_names.index(run.benchmark.suite.executor.name)
                 by_marker[k] = run
             keys = sorted(by_marker)
             w = dc.world(wd, dict(os.environ))
